@@ -44,3 +44,35 @@ Example C20_example :
   from_ascii_m (layout 7 (1#2) (3#4) [1%Z; 9%Z] [5#1; -999#1]%Q [1#10; -999#1]%Q) =
   Ok {| s_name := 7; s_x := (1#2)%Q; s_y := (3#4)%Q; s_flags := [1%Z; 9%Z]; s_flux := [5#1; -999#1]%Q; s_err := [1#10; -999#1]%Q |}.
 Proof. reflexivity. Qed.
+
+(* ---- "to the printed precision": Source.to_ascii prints fluxes and errors with "%11.3e" and coordinates with "%9.5f".
+   Model: Fmt.fmt_e / fmt_f (correctly rounded decimal of the exact value, ties to even; the decimal exponent is proposed by an
+   oracle and validated).  Proofs: FmtProofs. *)
+From Coq Require Import QArith Qabs ZArith.
+From SedV Require Import Fmt FmtProofs.
+Open Scope Q_scope.
+
+(* what is printed always has p+1 significant digits ... *)
+Theorem C20_print_digits : forall p e x me, fmt_e p e x = Some me -> (10 ^ Z.of_nat p <= fst me < 10 ^ (Z.of_nat p + 1))%Z.
+Proof. exact fmt_e_digits. Qed.
+
+(* ... and parsing it back gives the value within half a unit of the last printed digit: relative error <= 10^-p / 2 *)
+Theorem C20_print_precision : forall p e x me, fmt_e p e x = Some me ->
+  Qabs (val_e p me - Qabs x) <= (1 # 2) * pow10 (- Z.of_nat p) * Qabs x.
+Proof. exact fmt_e_rel. Qed.
+
+(* formatting, parsing and formatting again reproduces the text *)
+Theorem C20_reprint : forall p e x me, fmt_e p e x = Some me -> fmt_e p (snd me) (val_e p me) = Some me.
+Proof. exact fmt_e_reformat. Qed.
+
+(* the printed text does not depend on the exponent oracle *)
+Theorem C20_print_oracle_free : forall p e1 e2 x m1 m2, fmt_e p e1 x = Some m1 -> fmt_e p e2 x = Some m2 -> m1 = m2.
+Proof. exact fmt_e_oracle_free. Qed.
+
+(* coordinates, "%9.5f": absolute error <= 10^-p / 2 *)
+Theorem C20_print_fixed : forall p x, Qabs (val_f p (fmt_f p x) - Qabs x) <= (1 # 2) * pow10 (- Z.of_nat p).
+Proof. exact fmt_f_error. Qed.
+
+Example C20_print_example :
+  fmt_e 3 3 (2001 # 2) = Some (1000, 3)%Z /\ fmt_e 3 0 (99996 # 10000) = Some (1000, 1)%Z /\ fmt_f 5 (314159265 # 100000000) = 314159%Z.
+Proof. vm_compute. repeat split; reflexivity. Qed.
